@@ -67,6 +67,11 @@ STATEMENT_STATUS: Dict[str, str] = {
                            "tie-break): the output order is the key order (one group, members sorted by key_lrtb / key_tbrl)",
     "C09_column_order_two": "proved: on such a page the lower box of a column is never first (boxes_flow > -1), the right "
                             "one of two columns never first (boxes_flow < 1); checked on the implementation (two-boxes)",
+    "C09_column_order_separated_partial": "partial: for ANY number of boxes in one column (horizontal, common left edge, "
+        "positive height, boxes_flow > -1) the output is top to bottom PROVIDED every group of the hierarchy joins vertically "
+        "separated runs (Node.Separated); missing: that group_textboxes only merges adjacent runs of a column (merge-order "
+        "argument); the hypothesis is evaluated on the implementation's group tree and compared with the model (colsep)",
+    "C09_column_tree": "proved (tree-level: well-formed hierarchy + separated groups + column => leaves top to bottom)",
     "C09_column_order_partial": "partial (numeric boxes_flow): sort-key inequalities only; that a column is merged before the "
                                 "columns are joined is tested on generated layouts, not proved",
     "C09_order_none": "proved (full): with boxes_flow=None the boxes come out sorted by the positional key - a column top to "
@@ -665,6 +670,108 @@ def run_two_boxes(ctx: C.Ctx) -> None:
     check_two_boxes(ctx, [gen_two_boxes(rng) for _ in range(ctx.n(150, 1500))])
 
 
+# --------------------------------------------------------------------------- a single column of n boxes
+
+def gen_column_n(rng):
+    """One column of 2..8 single-line boxes with a common left edge: widths, heights (type sizes) and gaps differ from
+    box to box (gaps also equal, so that distances tie), numeric boxes_flow > -1, drawn in arbitrary order."""
+    bf = rng.choice([F(1, 2), F(0), F(-1, 2), F(3, 4), F(-3, 4), F(1), F(1, 4), F(-7, 8)])
+    la = dict(LA0, boxes_flow=S(bf), line_margin=rng.choice(["1/4", "1/8", "0"]))
+    n = rng.randint(2, 8)
+    x = F(rng.randint(20, 100))
+    y = F(rng.randint(650, 760))
+    rows = []
+    equal_gaps = rng.random() < 0.3
+    g0 = F(rng.randint(8, 40))
+    for r in range(n):
+        h = F(rng.choice([6, 8, 10, 10, 12, 16]))
+        w = h * F(3, 5)
+        y = y - h
+        rows.append((y, h, w, rng.randint(1, 12)))
+        y = y - (g0 if equal_gaps else F(rng.randint(8, 60)))
+    order = list(range(n))
+    if rng.random() < 0.5:
+        rng.shuffle(order)
+    items, cid = [], 0
+    for r in order:
+        yy, h, w, nch = rows[r]
+        for k in range(nch):
+            cid += 1
+            items.append(["c", cid, S(x + k * w), S(yy), S(x + (k + 1) * w), S(yy + h), "x"])
+    return {"bbox": ["0", "0", "612", "792"], "la": la, "items": items}
+
+
+def impl_separated(page):
+    """`Node.Separated` evaluated on the implementation's group tree; None without hierarchy."""
+    from pdfminer.layout import LTTextBox, LTTextGroup
+    if page.groups is None:
+        return None
+
+    def leaves(g):
+        if isinstance(g, LTTextBox):
+            return [g]
+        return [b for ch in g for b in leaves(ch)]
+
+    def above(l, r):
+        return all(F(b.y1) <= F(a.y0) for a in leaves(l) for b in leaves(r))
+
+    def sep(g):
+        if not isinstance(g, LTTextGroup):
+            return True
+        ch = list(g)
+        if len(ch) != 2:
+            return False
+        return (above(ch[0], ch[1]) or above(ch[1], ch[0])) and sep(ch[0]) and sep(ch[1])
+    return all(sep(g) for g in page.groups)
+
+
+def check_column_n(ctx: C.Ctx, cases, batch=None) -> None:
+    """C09_column_order_separated_partial on the implementation: hypotheses (horizontal boxes, common left edge,
+    positive height, `Separated` hierarchy - also compared with the model's `Node.separatedB`, op `analyze colsep`) and
+    conclusion (every box above every later one)."""
+    from pdfminer.layout import LTTextBox, LTTextBoxVertical
+    reqs, meta = [], []
+    for case in cases:
+        page, err = L.run_impl(case)
+        if err is not None:
+            report(ctx, C.Failure("layout analysis raised", case, "no exception", repr(err), {"check": "exception"}))
+            continue
+        boxes = [b for b in page if isinstance(b, LTTextBox)]
+        ctx.case(("coln", json.dumps(case, sort_keys=True)), len(boxes) >= 3, branch="column-n:boxes:%d" % min(len(boxes), 8))
+        if batch is not None:
+            batch.add(case, page)
+        hyp = (boxes and not any(isinstance(b, LTTextBoxVertical) for b in boxes)
+               and len({F(b.x0) for b in boxes}) == 1 and all(F(b.y0) < F(b.y1) for b in boxes)
+               and case["la"].get("boxes_flow") is not None and F(case["la"]["boxes_flow"]) > -1)
+        sep = impl_separated(page)
+        ctx.branch("column:" + ("separated" if sep else "not-separated" if sep is not None else "no-hierarchy"))
+        reqs.append(L.model_line([F(v) for v in case["bbox"]], case["la"], case["items"], "colsep"))
+        meta.append((case, sep))
+        if not hyp:
+            ctx.branch("column-n:hypotheses-not-met")
+            continue
+        ys = [(F(b.y0), F(b.y1)) for b in boxes]
+        ok = all(ys[j][1] <= ys[i][0] for i in range(len(ys)) for j in range(i + 1, len(ys)))
+        if not ok:
+            ctx.branch("column-n:order-broken:" + ("separated" if sep else "not-separated"))
+            report(ctx, C.Failure("the boxes of a single column do not come out top to bottom", case,
+                                  "every box above every later one", [[S(a), S(b)] for a, b in ys],
+                                  {"check": "column-n-order", "separated": bool(sep)}))
+        elif not sep:
+            ctx.branch("column-n:order-right-but-hierarchy-not-separated")
+    if ctx.driver is None or not reqs:
+        return
+    for (case, sep), out in zip(meta, ctx.driver.ask(reqs)):
+        want = "-" if sep is None else "1" if sep else "0"
+        if out != want:
+            ctx.disagree("colsep", case, want, out)
+
+
+def run_column_n(ctx: C.Ctx, batch) -> None:
+    rng = ctx.rng
+    check_column_n(ctx, [gen_column_n(rng) for _ in range(ctx.n(120, 1500))], batch)
+
+
 # --------------------------------------------------------------------------- scale invariance
 
 def equal_key_lines(page) -> bool:
@@ -1102,6 +1209,8 @@ def replay(ctx: C.Ctx, doc, batch=None) -> None:
             if not same_line and spec != same_box:
                 report(ctx, C.Failure("two lines are (not) joined into one box against the documented neighbour relation",
                                    inp, spec, same_box, tags))
+        elif check == "column-n-order":
+            check_column_n(ctx, [inp])
         elif check == "two-box-order":
             check_two_boxes(ctx, [(inp, "replay")])
         elif check == "column-order":
@@ -1135,6 +1244,7 @@ def run(ctx: C.Ctx) -> None:
     run_predicates(ctx)
     run_columns(ctx, batch)
     run_two_boxes(ctx)
+    run_column_n(ctx, batch)
     run_components(ctx)
     run_documents(ctx)
     run_big_scale(ctx, batch)
